@@ -67,8 +67,19 @@ def _class_src(items):
     return '[%s%s]' % ('^' if neg else '', ''.join(out)), neg
 
 
+_ATOMS_CACHE = {}
+_BLOCKS_CACHE = {}
+
+
 def atoms_of(pat):
-    """[(compiled single-character regex, positive?)] for every character atom of the pattern"""
+    """[(compiled single-character regex, positive?)] for every character atom of the pattern (a pure function of the
+    pattern text: kept per pattern)"""
+    if pat not in _ATOMS_CACHE:
+        _ATOMS_CACHE[pat] = _atoms_of(pat)
+    return _ATOMS_CACHE[pat]
+
+
+def _atoms_of(pat):
     out = []
 
     def walk(sub):
@@ -112,7 +123,16 @@ def signature(atoms, ch):
 
 
 def blocks(atoms, alphabet):
-    """{signature: [chars]} and the generic signature (no positive atom matches) if present"""
+    """{signature: [chars]} and the generic signature (no positive atom matches) if present; a pure function of the
+    atoms' sources and the alphabet: kept"""
+    key = (tuple((rx.pattern, pos) for rx, pos in atoms), ''.join(alphabet))
+    if key not in _BLOCKS_CACHE:
+        _BLOCKS_CACHE[key] = _blocks(atoms, alphabet)
+    out, generic = _BLOCKS_CACHE[key]
+    return {k_: list(v_) for k_, v_ in out.items()}, generic
+
+
+def _blocks(atoms, alphabet):
     out = {}
     for ch in alphabet:
         out.setdefault(signature(atoms, ch), []).append(ch)
